@@ -157,7 +157,7 @@ def run_chain(rng, counters, violations):
         src = live[src_i]
         kind = rng.choice(["rows", "rows2", "cols", "cols_str", "select", "add", "mul", "concat", "copy", "t", "head",
                            "tail", "reverse", "setcol", "newcol", "setcell", "new", "colexpr", "delcol", "pop", "neg",
-                           "at", "iter"])
+                           "at", "iter", "badset"])
         real_cols = [c for c in src._col_names]
         desc = kind
         snap = snapshot(src)
@@ -259,6 +259,32 @@ def run_chain(rng, counters, violations):
             elif kind == "new":
                 out = new_table(rng)
                 desc = "new table"
+            elif kind == "badset":
+                # an assignment that FAILS part-way (numpy writes the leading cells before it meets the value it
+                # cannot convert); afterwards the table must still satisfy every clause on its CURRENT columns
+                if len(src) >= 2 and "x" in real_cols and "i" in real_cols and src._data["x"].ndim == 1:
+                    e = rng.choice(["x+2*i", "x*i-1", "x/2"])
+                    src[e]                                            # evaluated once before the failure
+                    bad = [7.25] + ["oops"] + [1.5] * (len(src) - 2)
+                    how = rng.choice(["col", "slice"])
+                    desc = "#%d failing %s assignment, then [%r]" % (src_i, how, e)
+                    try:
+                        if how == "col":
+                            src["x"] = bad
+                        else:
+                            src["x", 0:len(src)] = np.array(bad, dtype=object)
+                        counters["failing_assignments_that_did_not_fail"] = counters.get("failing_assignments_that_did_not_fail", 0) + 1
+                    except Exception:
+                        counters["failing_assignments"] = counters.get("failing_assignments", 0) + 1
+                    x, i = src._data["x"], src._data["i"]
+                    if getattr(x, "dtype", None) is not None and x.dtype.kind == "f":
+                        want = eval(e, {}, {"x": x, "i": i})
+                        got = src[e]
+                        counters["column_expressions_compared"] = counters.get("column_expressions_compared", 0) + 1
+                        if not (np.shape(got) == np.shape(want) and np.array_equal(got, want, equal_nan=True)):
+                            violations.append({"what": "C14 column expression %s after a failed assignment: %s, the current columns give %s" % (
+                                e, got, want), "log": list(log) + [desc]})
+                            return derived_ok
             elif kind == "colexpr":
                 if "x" in real_cols and "i" in real_cols:
                     e = rng.choice(["x+2*i", "x*i-1", "i+i", "x/2", "abs(x)", "sqrt(x*x)+i"])
@@ -282,7 +308,7 @@ def run_chain(rng, counters, violations):
             out = None
             desc += " -> raised %s" % type(exc).__name__
         log.append(desc)
-        is_derivation = kind not in ("setcol", "newcol", "setcell", "delcol", "new", "pop", "append")
+        is_derivation = kind not in ("setcol", "newcol", "setcell", "delcol", "new", "pop", "append", "badset")
         if is_derivation:
             counters["derivations_with_source_snapshot"] = counters.get("derivations_with_source_snapshot", 0) + 1
             why = same_snapshot(snap, snapshot(src))
